@@ -266,6 +266,13 @@ def edited_leg(ctx, rng, uni, valid_strings, quick):
     r, bad = lextest.compare(sample)
     ctx.tlc("LexTest (PTLex against the harness's filter lexer)", r)
     ctx.cov["lexer_differential"] = {"strings": len(sample), "disagreements": len(bad), "examples": [b[0] for b in bad[:5]]}
+    if not quick:       # ... and on every string of length <= 5 over a 16-character alphabet of the notation
+        allstr = lextest.all_strings(5)
+        rs, bad = lextest.compare_sharded(allstr)
+        for r in rs:
+            ctx.tlc("LexTest (all strings of length <= 5)", r)
+        ctx.cov["lexer_differential_exhaustive"] = {"strings": len(allstr), "alphabet": lextest.SMALL, "disagreements": len(bad),
+                                                    "examples": [b[0] for b in bad[:5]]}
     bys = dict((it["id"], it["s"]) for it in items)
     byev = dict((e["id"], e) for e in events)
     ctx.count("edited strings (code -> spec)", len(events))
